@@ -117,24 +117,8 @@ theorem ev_next_cons (env : Py.Env) (x : Obj) (xs : List Obj) : Py.next env (.li
 theorem ev_forIn_list {σ : Type} (env : Py.Env) (l : List Obj) (init : σ) (body : σ → Obj → E σ) :
     Py.forIn env (.list l) init body = l.foldlM body init := rfl
 
-/-- after the reduction: the two assertions on the result hold -/
-theorem after_reduce (flip : Bool) (x : Scalar) (xs : List Scalar) :
-    (do let out ← convS (@reduceCmp SN flip x xs)
-        let t7 ← Py.getattr env1 (setObj (x :: xs)) "_element_type"
-        let t8 ← Py.isinstance Gen.Ex.mro env1 out t7
-        let c9 ← Py.truthy env1 t8
-        Py.assert_ c9
-        let t26 ← Py.isinstance Gen.Ex.mro env1 out (.cls .Any)
-        let c27 ← Py.truthy env1 t26
-        Py.assert_ c27
-        pure out) = convS (@reduceCmp SN flip x xs) := by
-  cases h : @reduceCmp SN flip x xs with
-  | error e => rfl
-  | ok r =>
-    have hk : kindCls r = kindCls x := (kindCls_eq_iff r x).mpr (reduceCmp_kind nfc flip xs x r h)
-    have he : Py.getattr env1 (setObj (x :: xs)) "_element_type" = .ok (.cls (kindCls x)) := rfl
-    simp only [convS, ok_bind, he, ev_isinstance_kind, hk, decide_true, truthy_bool, ev_isinstance_any]
-    rfl
+theorem ev_getattr_et_set (env : Py.Env) (x : Scalar) (xs : List Scalar) :
+    Py.getattr env (setObj (x :: xs)) "_element_type" = .ok (.cls (kindCls x)) := rfl
 
 theorem ev_assert_t : Py.assert_ true = .ok () := rfl
 
@@ -143,18 +127,6 @@ theorem ev_len_value (env : Py.Env) (raw : List Scalar) :
       .ok (R' (raw.length : Int) 1) := by
   show Except.ok (R' ((raw.map embS).length : Int) 1) = _
   rw [List.length_map]
-
-open Lean Elab Tactic Meta in
-/-- unfolds (one level, a few rounds) every generated method of `Set` that occurs in the goal: the helper methods a
-    refactoring may have introduced need not be known by name -/
-elab "unfold_set_methods" : tactic => withMainContext do
-  for _ in [0:3] do
-    let g ← getMainGoal
-    let t ← instantiateMVars (← g.getType)
-    let names := t.getUsedConstants.toList.filter fun nm => (`Gen.Ex.Set).isPrefixOf nm
-    if names.isEmpty then break
-    for nm in names do
-      evalTactic (← `(tactic| try unfold $(mkIdent nm)))
 
 theorem set_attribute (x : Scalar) (xs : List Scalar) (cps : List Nat) :
     Gen.Ex.Set._attribute env1 (setObj (x :: xs)) (embS (.str cps)) =
@@ -169,14 +141,25 @@ theorem set_attribute (x : Scalar) (xs : List Scalar) (cps : List Nat) :
     unfold_set_methods
     simp only [ev_reduce_set, ev_iter_setObj, ev_next_cons, ev_forIn_list, ok_bind, List.map_cons, bind_assoc, pure_eq_ok]
     rw [foldl_spec nfc false _ (by pick_step)]
-    exact after_reduce nfc n false x xs
+    -- whatever assertions follow the reduction hold of its result
+    cases h : @reduceCmp SN false x xs with
+    | error e => rfl
+    | ok r =>
+      have hk : kindCls r = kindCls x := (kindCls_eq_iff r x).mpr (reduceCmp_kind nfc false xs x r h)
+      simp only [convS, ok_bind, ev_getattr_et_set, ev_element_type, headCls, ev_isinstance_kind, hk, decide_true, truthy_bool,
+        ev_isinstance_any, ev_assert_t, pure_eq_ok]
   · simp only [h1, ↓reduceIte]
     by_cases h2 : cps = [109, 97, 120]
     · simp only [h2, ↓reduceIte]
       unfold_set_methods
       simp only [ev_reduce_set, ev_iter_setObj, ev_next_cons, ev_forIn_list, ok_bind, List.map_cons, bind_assoc, pure_eq_ok]
       rw [foldl_spec nfc true _ (by pick_step)]
-      exact after_reduce nfc n true x xs
+      cases h : @reduceCmp SN true x xs with
+      | error e => rfl
+      | ok r =>
+        have hk : kindCls r = kindCls x := (kindCls_eq_iff r x).mpr (reduceCmp_kind nfc true xs x r h)
+        simp only [convS, ok_bind, ev_getattr_et_set, ev_element_type, headCls, ev_isinstance_kind, hk, decide_true, truthy_bool,
+          ev_isinstance_any, ev_assert_t, pure_eq_ok]
     · simp only [h2, ↓reduceIte]
       by_cases h3 : cps = [99, 111, 117, 110, 116]
       · simp only [h3, ↓reduceIte]
